@@ -565,10 +565,10 @@ func (x *VC) allocRef(st *State, reach, hint string, t types.Type) string {
 	r := x.declare("new_"+hint, "Int")
 	al := x.allocComp()
 	cur := x.get(st, al)
-	x.assume("true", "(> "+r+" 0)")
-	x.assume("true", sNot(sSel(cur, r)))
-	x.assume("true", sEq("(dtype "+r+")", x.tag(t)))
-	x.assume("true", "(ptrtag "+x.tag(t)+")")
+	x.fact("(> "+r+" 0)")
+	x.fact(sNot(sSel(cur, r)))
+	x.fact(sEq("(dtype "+r+")", x.tag(t)))
+	x.fact("(ptrtag "+x.tag(t)+")")
 	x.set(st, al, sStore(cur, r, "true"))
 	return r
 }
@@ -612,11 +612,15 @@ func (x *VC) zeroFields(st *State, r string, owner types.Type, u *types.Struct, 
 		// facts about unallocated objects: all fields are zero (heap-model invariant)
 		x.assumeZeroAt(ad, st)
 	}
+	if shortTypeFull(owner) == "strings.Builder" {
+		c := x.comp("F|strings.Builder|$content", "Int", "String")
+		x.fact(sEq(sSel(x.get(st, c), r), `""`))
+	}
 	// ghost fields
 	for _, g := range x.eng.db.Ghosts {
 		if tn := namedOf(owner); tn != nil && tn.Obj().Name() == g.Type {
 			c := x.ghostComp(tn, g)
-			x.assume("true", sEq(sSel(x.get(st, c), r), x.zeroOfSort(c.Elem)))
+			x.fact(sEq(sSel(x.get(st, c), r), x.zeroOfSort(c.Elem)))
 		}
 	}
 }
@@ -634,10 +638,10 @@ func (x *VC) assumeZeroAt(ad *Addr, st *State) {
 	switch z.K {
 	case KScalar:
 		c := x.fieldComp(ad, "")
-		x.assume("true", sEq(sSel(x.get(st, c), ad.Base), z.T))
+		x.fact(sEq(sSel(x.get(st, c), ad.Base), z.T))
 	case KSlice:
 		c := x.fieldComp(ad, "#len")
-		x.assume("true", sEq(sSel(x.get(st, c), ad.Base), x.ilit(0)))
+		x.fact(sEq(sSel(x.get(st, c), ad.Base), x.ilit(0)))
 	}
 }
 
@@ -794,10 +798,10 @@ func (x *VC) loadAddr(a *Addr, st *State) *Val {
 			v.Arr = x.define("ldarr", fmt.Sprintf("(Array %s %s)", x.idxSort(), es), sSel(x.get(st, x.fieldComp(a, "#arr")), a.Base))
 			v.Off = x.define("ldoff", x.idxSort(), sSel(x.get(st, x.fieldComp(a, "#off")), a.Base))
 			v.Len = x.define("ldlen", x.idxSort(), sSel(x.get(st, x.fieldComp(a, "#len")), a.Base))
-			x.assume("true", sAnd(x.cmpS("<=", x.ilit(0), v.Len), x.cmpS("<=", x.ilit(0), v.Off)))
+			x.fact(sAnd(x.cmpS("<=", x.ilit(0), v.Len), x.cmpS("<=", x.ilit(0), v.Off)))
 			if x.mode == "math" {
-				x.assume("true", "(<= "+v.Len+" 4611686018427387904)")
-				x.assume("true", "(<= "+v.Off+" 4611686018427387904)")
+				x.fact("(<= "+v.Len+" 4611686018427387904)")
+				x.fact("(<= "+v.Off+" 4611686018427387904)")
 			}
 			return v
 		case *types.Array:
@@ -1144,7 +1148,7 @@ func (x *VC) binop(op token.Token, a, b *Val, opT, resT types.Type, reach, pos s
 			return bval(r)
 		}
 		nb := x.declare("slicenil", "Bool")
-		x.assume("true", sImp(nb, sEq(sl.Len, x.ilit(0))))
+		x.fact(sImp(nb, sEq(sl.Len, x.ilit(0))))
 		if op == token.NEQ {
 			return bval(sNot(nb))
 		}
@@ -1405,8 +1409,8 @@ func (x *VC) makeInterface(v *Val, from, to types.Type, reach string, st *State)
 		x.refuse("boxing of composite inside specification")
 	}
 	r := x.declare("boxed", "Int")
-	x.assume("true", "(> "+r+" 0)")
-	x.assume("true", sEq("(dtype "+r+")", x.tag(from)))
+	x.fact("(> "+r+" 0)")
+	x.fact(sEq("(dtype "+r+")", x.tag(from)))
 	return &Val{K: KScalar, T: r, S: "Int", GT: to, Box: v}
 }
 
@@ -1533,7 +1537,7 @@ func (x *VC) appendVals(s, t *Val, resT types.Type, reach string) *Val {
 		as := fmt.Sprintf("(Array %s %s)", x.idxSort(), s.ES)
 		r := &Val{K: KSlice, Arr: x.define("app", as, arr), Off: s.Off, Len: x.define("applen", x.idxSort(), x.addS(s.Len, t.Len)), ES: s.ES, GT: resT}
 		if x.mode == "math" {
-			x.assume("true", "(<= "+r.Len+" 4611686018427387904)")
+			x.fact("(<= "+r.Len+" 4611686018427387904)")
 		}
 		return r
 	}
@@ -1543,10 +1547,10 @@ func (x *VC) appendVals(s, t *Val, resT types.Type, reach string) *Val {
 	if x.mode == "bv" {
 		x.refuse("general append in bv mode")
 	}
-	x.assume("true", fmt.Sprintf("(forall ((i %s)) (! (=> (and (<= 0 i) (< i %s)) (= (select %s (+ %s i)) (select %s (+ %s i)))) :pattern ((select %s (+ %s i)))))", is, s.Len, arr, s.Off, s.Arr, s.Off, arr, s.Off))
-	x.assume("true", fmt.Sprintf("(forall ((i %s)) (! (=> (and (<= 0 i) (< i %s)) (= (select %s (+ %s %s i)) (select %s (+ %s i)))) :pattern ((select %s (+ %s i)))))", is, t.Len, arr, s.Off, s.Len, t.Arr, t.Off, t.Arr, t.Off))
+	x.fact(fmt.Sprintf("(forall ((i %s)) (! (=> (and (<= 0 i) (< i %s)) (= (select %s (+ %s i)) (select %s (+ %s i)))) :pattern ((select %s (+ %s i)))))", is, s.Len, arr, s.Off, s.Arr, s.Off, arr, s.Off))
+	x.fact(fmt.Sprintf("(forall ((i %s)) (! (=> (and (<= 0 i) (< i %s)) (= (select %s (+ %s %s i)) (select %s (+ %s i)))) :pattern ((select %s (+ %s i)))))", is, t.Len, arr, s.Off, s.Len, t.Arr, t.Off, t.Arr, t.Off))
 	r := &Val{K: KSlice, Arr: arr, Off: s.Off, Len: x.define("applen", is, x.addS(s.Len, t.Len)), ES: s.ES, GT: resT}
-	x.assume("true", "(<= "+r.Len+" 4611686018427387904)")
+	x.fact("(<= "+r.Len+" 4611686018427387904)")
 	return r
 }
 
